@@ -1,5 +1,6 @@
 (** C06 — Forbid rejects, Enqueue waits FIFO, Allow always starts; no Job stays stuck. *)
-From Furiko Require Import Queue.World Proofs.QueueP.
+From Furiko Require Import Queue.World Proofs.QueueP Proofs.QueueInvP Proofs.QueueEqP.
+Open Scope list_scope.
 
 Theorem c06_reject_only_forbid_at_limit :
   forall now maxc active j, can_start now maxc active j = DReject -> q_policy j = PForbid /\ maxc < active + 1.
@@ -42,3 +43,32 @@ Example c06_nonvacuous :
   can_start 100 1 1 (mkQJ 2 true 11 PEnqueue None None false false 0) = DSkip /\
   can_start 100 1 1 (mkQJ 3 true 12 PAllow None None false false 0) = DStart.
 Proof. repeat split. Qed.
+
+(** no Job stays stuck.  In a history whose events have all reached the cache and the store,
+    a pass of the per-JobConfig reconciler that finds nothing to do (no write, no error) leaves
+    only Jobs that are really blocked: Enqueue Jobs while the API itself holds maxConcurrency
+    owned active Jobs (judged on the true count, not on the counter), or Jobs whose
+    startAfter lies in the future (for which the pass arms a re-sync, C07).  A Forbid Job is
+    never left: it is started or refused. *)
+Theorem c06_idle_pass_means_blocked :
+  forall now m ops w' armed,
+    run_ok2 (init_qworld now m) ops ->
+    let w := qrun_world (init_qworld now m) ops in
+    qc_pending w = [] -> qs_pending w = [] ->
+    sync_q w = (w', [], true, armed) ->
+    forall j, In j (queued_jobs w) ->
+      can_start (q_clock w) (max_conc w) (acount (qa_jobs w)) j = DSkip \/
+      can_start (q_clock w) (max_conc w) (acount (qa_jobs w)) j = DWait.
+Proof. exact idle_pass_means_blocked. Qed.
+Print Assumptions c06_idle_pass_means_blocked.
+
+
+Definition ex_ops6 :=
+  [QCreate (mkQJ 1 true 10 PEnqueue None None false false 0); QCreate (mkQJ 2 true 11 PEnqueue None None false false 0);
+   QAdvCache 10; QDeliverStore 10; QSync; QAdvCache 10; QDeliverStore 10].
+Example c06_idle_nonvacuous :
+  let w := qrun_world (init_qworld 100 (Some 1)) ex_ops6 in
+  run_ok2 (init_qworld 100 (Some 1)) ex_ops6 /\ qc_pending w = [] /\ qs_pending w = [] /\
+  snd (fst (fst (sync_q w))) = [] /\ snd (fst (sync_q w)) = true /\
+  map q_id (queued_jobs w) = [2%Z] /\ acount (qa_jobs w) = 1%Z.
+Proof. vm_compute. repeat split; auto. Qed.
